@@ -1,22 +1,28 @@
 #!/bin/bash
-# usage: runseeds.sh <scratch> <prop> <seed0> <n> [tier]  -- dev helper: runs seeds, restarting after violations, prints summary
-d=$1; prop=$2; s0=$3; n=$4; tier=${5:-quick}
+# usage: runseeds.sh <scratch> <prop> <seed0> <n> [tier] [maxshow]  -- dev helper: runs seeds, restarting after violations, prints summary
+d=$1; prop=$2; s0=$3; n=$4; tier=${5:-quick}; export MAXSHOW=${6:-4}
 end=$((s0+n)); cur=$s0; out=$d/out.jsonl; : > $out
 while [ $cur -lt $end ]; do
-  VERIF_PROP=$prop VERIF_TIER=$tier VERIF_SEED0=$cur VERIF_NSEEDS=$((end-cur)) VERIF_OUT=$out $d/h.test -test.run TestWorker -test.timeout 0 > $d/worker.log 2>&1
+  VERIF_PROP=$prop VERIF_TIER=$tier VERIF_SEED0=$cur VERIF_NSEEDS=$((end-cur)) VERIF_OUT=$out VERIF_WATCHDOG_S=20 $d/h.test -test.run TestWorker -test.timeout 0 > $d/worker.log 2>&1
   rc=$?
   last=$(tail -1 $out | python3 -c "import sys,json; print(json.loads(sys.stdin.readline())['seed'])")
   cur=$((last+1))
-  if [ $rc -ne 3 ] && [ $rc -ne 0 ]; then echo "worker exit $rc"; tail -30 $d/worker.log; break; fi
+  if [ $rc -ne 3 ] && [ $rc -ne 0 ]; then echo "worker exit $rc"; tail -40 $d/worker.log | cut -c1-300; break; fi
 done
 python3 - $out <<'PY'
-import sys,json,collections
-n=0;bad=[];steps=0;sigs=set();probes=collections.Counter();strat=collections.Counter()
+import sys,json,collections,os
+n=0;bad=[];steps=0;sigs=set();probes=collections.Counter();strat=collections.Counter();faults=collections.Counter();sub=0;clauses=collections.Counter()
 for l in open(sys.argv[1]):
-    r=json.loads(l); n+=1; steps+=r['steps']; sigs.add(r['sig']); strat[r['strategy']]+=1
+    r=json.loads(l); n+=1; steps+=r['steps']; sigs.add(r['sig']); strat[r['strategy']]+=1; sub+=r.get('sub',0)
     for k,v in (r.get('probes') or {}).items(): probes[k]+=v
-    if not r['ok']: bad.append(r)
-print("runs",n,"steps",steps,"distinct sigs",len(sigs),"violations",len(bad)); print(dict(probes)); print(dict(strat))
-for r in bad[:12]:
-    print("SEED",r['seed'],r['class'],r.get('clause'),r['detail'][:600]); print("   ",json.dumps(r.get('case'))[:700])
+    for k,v in (r.get('faults') or {}).items(): faults[k]+=v
+    if not r['ok']: bad.append(r); clauses[r['class']+'/'+str(r.get('clause'))]+=1
+print("runs",n,"sub",sub,"steps",steps,"distinct sigs",len(sigs),"violations",len(bad),dict(clauses)); print("probes",dict(probes)); print("faults",dict(faults)); print(dict(strat))
+seen=set()
+for r in bad:
+    key=r['class']+'/'+str(r.get('clause'))
+    if key in seen and len(seen)>1: continue
+    if len(seen)>=int(os.environ.get('MAXSHOW','4')): break
+    seen.add(key)
+    print("SEED",r['seed'],r['class'],r.get('clause'),r['detail'][:500]); print("   ",json.dumps(r.get('case'))[:500])
 PY
